@@ -1,13 +1,29 @@
 (* C15 - Compression round trip for every algorithm, level and buffer.
-   The four compression libraries are outside the model (oracles).  PROVED: the
-   wrapper logic that is mtbl's own - algorithm names round-trip through
-   to_str/from_str, from_str is case-insensitive equality with a table name and refuses
-   everything else (tables regenerated from the source), the level handed to each
-   library lies in that library's legal range for EVERY requested level, the LZ4
-   length prefix round-trips.  NOT provable here: that zlib/lz4/zstd/snappy invert
-   themselves and never need more than the capacity offered (documented contracts;
-   exercised by engine c15 in forked children over every length 0..64 x contents x
-   5 algorithms x levels from -10000 to 100, plus random buffers). *)
+   The four compression libraries are outside the model: they enter as a record of oracle
+   functions (model/Compress.v, [libs]) with their documented contracts as hypotheses
+   ([libs_sound]: what a compressor returns fits the capacity it was given and is inverted by
+   the matching decompressor offered the original size; [libs_complete]: offered its documented
+   bound and a legal level a compressor does not fail).  Everything that is mtbl's own code is
+   modelled and PROVED for every algorithm, EVERY requested level and every input:
+   T15a_roundtrip - whenever mtbl_compress_level / mtbl_compress succeed, mtbl_decompress
+     returns exactly the input (INT_MAX gates, LZ4 length prefix, zstd content-size path,
+     the zlib inflate grow loop reaching the needed capacity within its doublings);
+   T15a_compress_succeeds / T15a_never_aborts - with the libraries' guarantees the compression
+     wrappers neither fail nor abort: the capacity handed to each library is at least that
+     library's bound and the clamped level is legal (the zlib clamp is what keeps deflateInit
+     from failing its assert);
+   T15a_levels - the level handed to each library lies in its legal range for every request;
+   T15b_names - names round-trip through to_str/from_str; from_str is case-insensitive equality
+     with a table name and refuses everything else (tables regenerated from the source).
+   Domain: inputs below 2^64 bytes; for zstd, inputs whose ZSTD_compressBound is at most INT_MAX
+   (observation O6: a larger incompressible input compresses to more than INT_MAX bytes, which
+   mtbl_decompress refuses - about 2 GiB, outside the property's stated range).
+   NOT provable here: that zlib/lz4/zstd/snappy meet their contracts.  Engine c15 exercises them
+   in forked children (every length 0..64 x contents x 5 algorithms x levels -10000..100, random
+   buffers), records at the library boundary the (level, capacity) each wrapper actually passes
+   and checks the hypotheses of the theorems on them (capacity >= the real bound function, level
+   legal, decompression capacity = original size), and compares the bound formulas written in
+   the model with LZ4_compressBound / ZSTD_compressBound / snappy_max_compressed_length. *)
 From Coq Require Import NArith ZArith List Lia String.
 From Mtbl Require Import gen.Consts model.Bytes model.Codec model.Compress proofs.CompressProofs.
 Local Open Scope N_scope.
@@ -24,7 +40,7 @@ Proof.
 Qed.
 Print Assumptions T15b_names.
 
-Theorem T15a_levels_partial :
+Theorem T15a_levels :
   (forall l, (-1 <= zlib_level l <= 9)%Z) /\ (forall l, (0 <= lz4hc_level l)%Z) /\
   (forall minl maxl l, (minl <= maxl)%Z -> (minl <= zstd_level minl maxl l <= maxl)%Z) /\
   (forall n body, n < 2 ^ 32 -> lz4_unwrap (lz4_wrap n body) = Some (n, body)).
@@ -32,4 +48,48 @@ Proof.
   split; [exact zlib_level_range|]. split; [exact lz4hc_level_range|].
   split; [exact zstd_level_range|exact lz4_prefix_roundtrip].
 Qed.
-Print Assumptions T15a_levels_partial.
+Print Assumptions T15a_levels.
+
+(* ---- the wrappers ---------------------------------------------------------------------- *)
+Theorem T15a_roundtrip : forall (L : libs), libs_sound L -> forall alg level x s,
+  len x < 2 ^ 64 -> (alg = COMP_ZSTD -> zstd_bound (len x) <= INT_MAX) ->
+  (wrapper_compress_level L alg level x = COk s -> wrapper_decompress L alg s = COk x) /\
+  (wrapper_compress L alg x = COk s -> wrapper_decompress L alg s = COk x).
+Proof.
+  intros L Hs alg level x s Hx Hz. split; [apply wrapper_roundtrip; assumption|].
+  unfold wrapper_compress. apply wrapper_roundtrip; assumption.
+Qed.
+Print Assumptions T15a_roundtrip.
+
+Theorem T15a_compress_succeeds : forall (L : libs), libs_complete L -> forall alg level x,
+  In alg [COMP_SNAPPY; COMP_ZLIB; COMP_LZ4; COMP_LZ4HC; COMP_ZSTD] -> len x <= LZ4_MAX_INPUT_SIZE ->
+  exists s, wrapper_compress_level L alg level x = COk s.
+Proof. exact wrapper_compress_succeeds. Qed.
+Print Assumptions T15a_compress_succeeds.
+
+Theorem T15a_never_aborts : forall (L : libs), libs_complete L -> forall alg level x,
+  wrapper_compress_level L alg level x <> CAbort /\ wrapper_compress L alg x <> CAbort.
+Proof.
+  intros L Hc alg level x. split; [apply wrapper_compress_never_aborts; exact Hc|].
+  unfold wrapper_compress. apply wrapper_compress_never_aborts; exact Hc.
+Qed.
+Print Assumptions T15a_never_aborts.
+
+(* the capacity obligations behind the two theorems, as plain inequalities *)
+Theorem T15a_capacities : forall n,
+  lz4_bound n + 4 <= INT_MAX /\ zstd_bound n <= zstd_capacity n /\ 1024 <= inflate_cap0 n /\
+  (zstd_bound n <= INT_MAX -> zstd_capacity n <= INT_MAX).
+Proof. intros n. repeat split; [apply lz4_bound_le|apply zstd_capacity_ge|apply inflate_cap0_ge|apply zstd_capacity_le]. Qed.
+Print Assumptions T15a_capacities.
+
+(* the hypotheses are satisfiable (libraries that store their input), and the pinned tree's zlib
+   sizing 2n was below the bound for every input shorter than 13 bytes (finding F4) *)
+Example T15_contracts_satisfiable : libs_sound store_libs /\ libs_complete store_libs /\
+  wrapper_compress_level store_libs COMP_LZ4HC (-7) [1; 2; 3] = COk [3; 0; 0; 0; 1; 2; 3] /\
+  wrapper_decompress store_libs COMP_LZ4 [3; 0; 0; 0; 1; 2; 3] = COk [1; 2; 3] /\
+  wrapper_compress store_libs COMP_NONE [1] = CFail /\
+  (forall n, n < 13 -> 2 * n < n + 13).
+Proof.
+  split; [exact store_libs_sound|]. split; [exact store_libs_complete|].
+  split; [vm_compute; reflexivity|]. split; [vm_compute; reflexivity|]. split; [vm_compute; reflexivity|exact zlib_2n_too_small].
+Qed.
